@@ -59,6 +59,66 @@ theorem record_spec (cfg : Cfg) (d : Decl) (r : Option VroEnt) (s : St) (hw : We
     · simp at he; rw [he.1, hnd]; rfl
     · exact hw.dirs n p rel h
 
+/-- the same when the name has a record that names an undeclared version (`findSetupProduct` finds nothing):
+nothing in a residue-free, well-owned environment belongs to such a record -/
+theorem record_spec_gen (cfg : Cfg) (d : Decl) (reason : Option VroEnt) (s : St) (hw : WellOwned cfg s.env)
+    (hn : NoResidue Empty s.env) (hsp : setupProd cfg.db s.env d.name = none) :
+    NoResidue Empty (record d reason s).env ∧ WellOwned cfg (record d reason s).env := by
+  have hnone : s.env.rec? d.name = none ∨ ∃ v, s.env.rec? d.name = some v ∧ cfg.db.lookup (d.name, v) = none := by
+    unfold setupProd at hsp
+    split at hsp
+    · rename_i v hv; exact Or.inr ⟨v, hv, hsp⟩
+    · rename_i hv; exact Or.inl hv
+  rcases hnone with hnone | ⟨v, hv, hlk⟩
+  · exact record_spec cfg d reason s hw hn hnone
+  · have hnoelem : ∀ p : Prod, p.1 = d.name → s.env.rec? p.1 = some p.2 → tableOf cfg p = [] := by
+      intro p hp hr
+      rw [hp, hv] at hr
+      have : p = (d.name, v) := by
+        cases p; simp at hp hr; simp [hp, hr]
+      unfold tableOf; rw [this, hlk]
+    have key : ∀ p : Prod, (Empty p ∨ s.env.rec? p.1 = some p.2) → tableOf cfg p ≠ [] →
+        Empty p ∨ (record d reason s).env.rec? p.1 = some p.2 := by
+      intro p hp hne
+      rcases hp with hp | hp
+      · exact absurd hp (by simp [Empty])
+      · right
+        by_cases hpn : p.1 = d.name
+        · exact absurd (hnoelem p hpn hp) hne
+        · rw [record_rec?_other d reason s p.1 hpn]; exact hp
+    have hdirs : ∀ n x, aget (record d reason s).env.dirs n = some x →
+        (n = d.name ∧ x = .own d.prod []) ∨ (n ≠ d.name ∧ aget s.env.dirs n = some x) := by
+      intro n x h
+      by_cases hnd : n = d.name
+      · subst hnd
+        simp [record, aget_aset_same] at h
+        exact Or.inl ⟨rfl, h.symm⟩
+      · simp only [record] at h
+        rw [aget_aset_other _ _ _ _ hnd] at h; exact Or.inr ⟨hnd, h⟩
+    constructor
+    · refine ⟨?_, ?_, ?_⟩
+      · intro var p rel hm
+        obtain ⟨app, hline⟩ := hw.path var p rel hm
+        exact key p (hn.path var p rel hm) (by intro e; rw [e] at hline; cases hline)
+      · intro var p rel hm
+        have hline := hw.vars var p rel hm
+        exact key p (hn.vars var p rel hm) (by intro e; rw [e] at hline; cases hline)
+      · intro n p rel hm
+        rcases hdirs n _ hm with ⟨_, he⟩ | ⟨hnd, h0⟩
+        · right
+          simp at he
+          rw [he.1]; exact record_rec?_same d reason s
+        · have hpn : p.1 = n := hw.dirs n p rel h0
+          rcases hn.dirs n p rel h0 with hp | hp
+          · exact absurd hp (by simp [Empty])
+          · right
+            rw [record_rec?_other d reason s p.1 (by rw [hpn]; exact hnd)]; exact hp
+    · refine ⟨hw.path, hw.vars, ?_⟩
+      intro n p rel hm
+      rcases hdirs n _ hm with ⟨hnd, he⟩ | ⟨_, h0⟩
+      · simp at he; rw [he.1, hnd]; rfl
+      · exact hw.dirs n p rel h0
+
 section Generic
 variable (cfg : Cfg) (rank : Name → Nat) (hdag : NameDag cfg.db rank) (rec : Rec) (hrec : RecOK cfg rank rec)
 include hdag hrec
@@ -154,67 +214,10 @@ theorem install_spec (depth : Nat) (noRec : Bool) (vro : List VroEnt) (d : Decl)
   | none =>
     rw [hsp] at h
     simp only at h
-    have hnone : s.env.rec? d.name = none ∨ ∃ v, s.env.rec? d.name = some v ∧ cfg.db.lookup (d.name, v) = none := by
-      unfold setupProd at hsp
-      split at hsp
-      · rename_i v hv; exact Or.inr ⟨v, hv, hsp⟩
-      · rename_i hv; exact Or.inl hv
-    rcases hnone with hnone | ⟨v, hv, hlk⟩
-    · exact tail s ha hw hn hnone h
-    · -- a record naming an undeclared version: nothing in a residue-free, well-owned environment belongs to it
-      have hw' : WellOwned cfg s.env := hw
-      have hnoelem : ∀ p : Prod, p.1 = d.name → s.env.rec? p.1 = some p.2 → tableOf cfg p = [] := by
-        intro p hp hr
-        rw [hp, hv] at hr
-        have : p = (d.name, v) := by
-          cases p; simp at hp hr; simp [hp, hr]
-        unfold tableOf; rw [this, hlk]
-      -- build the invariants for the recorded state directly
-      have key : ∀ p : Prod, (Empty p ∨ s.env.rec? p.1 = some p.2) → tableOf cfg p ≠ [] →
-          Empty p ∨ (record d reason s).env.rec? p.1 = some p.2 := by
-        intro p hp hne
-        rcases hp with hp | hp
-        · exact absurd hp (by simp [Empty])
-        · right
-          by_cases hpn : p.1 = d.name
-          · exact absurd (hnoelem p hpn hp) hne
-          · rw [record_rec?_other d reason s p.1 hpn]; exact hp
-      have hdirs : ∀ n x, aget (record d reason s).env.dirs n = some x →
-          (n = d.name ∧ x = .own d.prod []) ∨ (n ≠ d.name ∧ aget s.env.dirs n = some x) := by
-        intro n x h
-        by_cases hnd : n = d.name
-        · subst hnd
-          simp [record, aget_aset_same] at h
-          exact Or.inl ⟨rfl, h.symm⟩
-        · simp only [record] at h
-          rw [aget_aset_other _ _ _ _ hnd] at h; exact Or.inr ⟨hnd, h⟩
-      have hn2 : NoResidue Empty (record d reason s).env := by
-        refine ⟨?_, ?_, ?_⟩
-        · intro var p rel hm
-          obtain ⟨app, hline⟩ := hw.path var p rel hm
-          exact key p (hn.path var p rel hm) (by intro e; rw [e] at hline; cases hline)
-        · intro var p rel hm
-          have hline := hw.vars var p rel hm
-          exact key p (hn.vars var p rel hm) (by intro e; rw [e] at hline; cases hline)
-        · intro n p rel hm
-          rcases hdirs n _ hm with ⟨_, he⟩ | ⟨hnd, h0⟩
-          · right
-            simp at he
-            rw [he.1]; exact record_rec?_same d reason s
-          · have hpn : p.1 = n := hw.dirs n p rel h0
-            rcases hn.dirs n p rel h0 with hp | hp
-            · exact absurd hp (by simp [Empty])
-            · right
-              rw [record_rec?_other d reason s p.1 (by rw [hpn]; exact hnd)]; exact hp
-      have hw2 : WellOwned cfg (record d reason s).env := by
-        refine ⟨hw.path, hw.vars, ?_⟩
-        intro n p rel hm
-        rcases hdirs n _ hm with ⟨hnd, he⟩ | ⟨_, h0⟩
-        · simp at he; rw [he.1, hnd]; rfl
-        · exact hw.dirs n p rel h0
-      exact acts_true_spec cfg rank rec hrec depth noRec vro d (d.actions cfg.exact)
-        (canon_deps_rank cfg.db rank hdag d hc cfg.exact) (fun a hm => by rw [tableOf_canon cfg d hc]; exact hm)
-        _ s' (alreadyOK_aset cfg.db _ ha d reason hc) hw2 hn2 (record_rec?_same d reason s) h
+    obtain ⟨hn2, hw2⟩ := record_spec_gen cfg d reason s hw hn hsp
+    exact acts_true_spec cfg rank rec hrec depth noRec vro d (d.actions cfg.exact)
+      (canon_deps_rank cfg.db rank hdag d hc cfg.exact) (fun a hm => by rw [tableOf_canon cfg d hc]; exact hm)
+      _ s' (alreadyOK_aset cfg.db _ ha d reason hc) hw2 hn2 (record_rec?_same d reason s) h
   | some sd =>
     rw [hsp] at h
     simp only at h
